@@ -2,7 +2,7 @@ ENGINES = [
     {"name": "sched (E2)", "path": "harness/src/{e2,sched}.rs", "serves_properties": ["C10", "C11"],
      "kind_free_text": "E1's tower driven by 2-3 real OS threads; an observer behind the hooked Mutex/Condvar mediates every lock operation: serialising seeded "
                        "PCT scheduler, scripted sequential reference schedules, free-running mode, wait-for / stuck detection, lock-order graph"},
-    {"name": "towersim (E1)", "path": "harness/src/{e1,model,world,tower,chain,node,snap}.rs", "serves_properties": ["C01", "C02", "C04", "C06", "C07", "C08", "C09", "C11"],
+    {"name": "towersim (E1)", "path": "harness/src/{e1,model,world,tower,chain,node,snap}.rs", "serves_properties": ["C01", "C02", "C03", "C04", "C06", "C07", "C08", "C09", "C11"],
      "kind_free_text": "the real tower components in one process against a simulated chain and node; a sequential reference model (TowerModel) and "
                        "per-property monitors compare replies, sqlite rows, private-API answers and the node RPC log after every step"},
     {"name": "pure (E6)", "path": "harness/src/pure_*.rs", "serves_properties": ["C17", "C19", "C20", "C07"],
@@ -29,6 +29,13 @@ META = {
     "C07": _e1meta("DESIGN.md §4 C07", "Slot ledger conservation after every step with the balance read from reply, memory and disk; plus the slot formula for every length 0..4 MiB (that sub-space exhaustively)."),
     "C08": _e1meta("DESIGN.md §4 C08", "Every receipt is verified with the client-side verifier from exactly the returned fields; stored rows and read-backs are compared byte for byte with the last accepted version."),
     "C09": _e1meta("DESIGN.md §4 C09", "Expiry errors, renewals and purges are checked at exactly the promised heights over small (slots, duration, grace) grids, multi-block polls and reorgs."),
+    "C03": {
+        "engine": "towersim (E1) + crash enumerator (e1c)", "level": "fault_enumeration", "design_ref": "DESIGN.md §4 C03",
+        "technique": "fault injection at hooked crash points (every durable write / commit / node RPC / block download) with restart, monitored by comparing the database after every later operation with the uninterrupted execution",
+        "text": "For each sampled history every crash point inside an operation is enumerated (one full re-execution each), plus failed block downloads followed by a restart. "
+                "Held on all enumerated faults except two recorded known findings.",
+        "note": "Histories are sampled; within a history the crash-point enumeration is complete for points inside operations. In-process crash = unwind + drop; bootstrap mirrors main.rs.",
+    },
     "C10": {
         "engine": "sched (E2)", "level": "exploration", "design_ref": "DESIGN.md §4 C10, appendix B",
         "technique": "runtime monitoring under a controlled scheduler: linearizability check of recorded outcomes against executed sequential interleavings",
